@@ -418,3 +418,21 @@ def run(ck, facts):
                 if v and not C.diverges(arm.get("b")) and not ((C.strip(arm["b"]).get("ctor") or C.strip(arm["b"]).get("p") or "").endswith("Option::None")):
                     kinds.add(v.split("::")[-1])
     ck.expect({"Struct", "Impl", "Mod"} <= kinds, "R6", "find_top_level_attr/item-kinds", str(sorted(kinds)), "config attributes are no longer read from struct, impl and mod items (got %s)" % sorted(kinds), C.loc(fta))
+    # every source is consumed to the end: loops that feed `set` (directly or through read_* helpers) never leave early
+    for fname in ("config::Config::read_cli_settings", "config::Config::read_file", "diplomat_tool::gen"):
+        f_ = tool.fn(fname, optional=True)
+        if f_ is None:
+            ck.bad("R6", "%s/anchor" % fname, "function not found", None)
+            continue
+        for lp in C.enclosing_loops(C.fn_body(f_)):
+            body_ = C.loop_body(lp)
+            feeds = any(x.get("k") == "mcall" and x.get("m") == "set" for x in C.walk(body_))
+            if not feeds:
+                continue
+            exits = [x.get("k") for x in C.walk(body_) if x.get("k") in ("break", "ret")]
+            # `?` on a Result inside the loop is an error path (read_file's toml errors happen before the loop)
+            short_ = [x.get("m") for x in C.walk(lp.get("iter") or {}) if x.get("k") == "mcall" and x.get("m") in SHORT]
+            key_ = "%s/loop-runs-to-completion#%d" % (fname.split("::")[-1], sum(1 for i in ck.instances if i["rule"] == "R6" and i["key"].startswith(fname.split("::")[-1] + "/loop")))
+            ck.expect(not exits and not short_, "R6", key_, "no early exit",
+                      "the loop that applies one configuration source leaves early (%s %s): after one malformed or special entry the remaining entries of that source are silently dropped, "
+                      "so a lower-precedence source wins for them" % (exits, short_), C.loc(f_, lp.get("ln")))
